@@ -34,6 +34,8 @@ CONTENTS = [
     ('anchor', ANCHOR_TEXT, True),
     ('b_other_rule', 'package b\n\nw := 3\n', True),
     ('a_imports_c', 'package a\n\nimport data.c\n\nx := c.z\n', True),
+    ('empty', '', False),
+    ('d_imports_b', 'package d\n\nimport data.b\n\nv := b.y\n', True),
 ]
 CID = {t: i for i, (_, t, _) in enumerate(CONTENTS)}
 CNAME = {n: i for i, (n, _, _) in enumerate(CONTENTS)}
@@ -138,6 +140,76 @@ SMALL = [
 ]
 
 
+# ---- document states x event kinds (quick tier, exhaustive) ------------------------------------------------
+# Fixed setup: three files with imports between them (a imports package b, c imports rule data.b.y) + the anchor.
+# The SUBJECT is b.rego.  Document states of the subject: parses with other contents (P: rule y gone), does not
+# parse (B), empty (E), parses again with its first contents (A).  Structural events, one of every kind the server
+# handles: didOpen of a new file that imports b, didChange of another file, didCreateFiles, didRenameFiles of the
+# subject, didDeleteFiles of the subject, config change.  Every ordered pair (state-changing event, structural
+# event) and (structural event, state-changing event) occurs as two consecutive events of a one-at-a-time history
+# of length 3-4 (every prefix is a checkpoint compared with a from-scratch lint and with the model).
+INIT_X = {'a.rego': T('a_imports_b'), 'b.rego': T('b_plain'), 'c.rego': T('c_imports_rule_b_y')}
+X_STATES = {'P': T('b_other_rule'), 'B': T('broken_b'), 'E': T('empty'), 'A': T('b_plain')}
+X_STRUCT = ['open', 'change-other', 'create', 'rename', 'delete', 'config']
+
+
+def crossing_history(seq):
+    """seq: state names (P/B/E/A) and structural event names -> concrete events; the subject is followed through a
+    rename and re-created (didCreateFiles) after a delete"""
+    w = World(INIT_X)
+    subject = 'b.rego'
+    out = []
+    for x in seq:
+        if x in X_STATES:
+            e = {'op': 'change' if subject in w.cur else 'create', 'file': subject, 'text': X_STATES[x]}
+        elif x == 'open':
+            e = {'op': 'open', 'file': 'd.rego', 'text': T('d_imports_b')}
+        elif x == 'create':
+            e = {'op': 'create', 'file': 'd.rego', 'text': T('d_imports_b')}
+        elif x == 'change-other':
+            e = {'op': 'change', 'file': 'a.rego', 'text': T('a_plain')}
+        elif x == 'rename':
+            to = next(n for n in ('d.rego', 'e.rego', 'b.rego') if n not in w.cur and n != subject)
+            e = {'op': 'rename', 'file': subject, 'to': to}
+        elif x == 'delete':
+            e = {'op': 'delete', 'file': subject}
+        else:
+            e = {'op': 'config', 'text': CONFIGS[1]}
+        if not w.applicable(e):
+            return None
+        w.apply(e)
+        if e['op'] == 'rename':
+            subject = e['to']
+        out.append(e)
+    return out
+
+
+def crossing_sequences(quick):
+    seqs = []
+    for e in X_STRUCT:
+        seqs += [['B', e, 'A'], ['E', e, 'P'], ['P', e, 'B'], ['B', 'A', e, 'E']]
+    if not quick:
+        for e in X_STRUCT:
+            for s1 in 'PBEA':
+                for s2 in 'PBEA':
+                    if [s1, e, s2] not in seqs:
+                        seqs.append([s1, e, s2])
+        for i, e in enumerate(X_STRUCT):
+            for s1 in 'PBEA':
+                seqs.append([e, s1, X_STRUCT[(i + 1) % len(X_STRUCT)]])
+    return seqs
+
+
+def crossing_pairs(seqs):
+    """the ordered pairs of consecutive (state, structural) / (structural, state) events that the sequences contain"""
+    ps = set()
+    for q in seqs:
+        for a, b in zip(q, q[1:]):
+            if (a in X_STATES) != (b in X_STATES):
+                ps.add((a, b))
+    return ps
+
+
 def all_parse(evs):
     return all(e['op'] not in ('open', 'change', 'create') or CONTENTS[CID[e['text']]][2] for e in evs)
 
@@ -167,6 +239,16 @@ def gen_jobs(ctx):
         jobs.append({'id': len(jobs), 'mode': mode, 'init': init, 'events': evs, 'tag': tag})
 
     quick = ctx.quick()
+    # 0. document states x event kinds, exhaustive pairs
+    xs = crossing_sequences(quick)
+    need = {(a, b) for a in X_STATES for b in X_STRUCT} | {(b, a) for a in X_STATES for b in X_STRUCT}
+    if not need <= crossing_pairs(xs):
+        raise RuntimeError('crossing histories do not cover every (state, event) pair: %r' % sorted(need - crossing_pairs(xs)))
+    for q in xs:
+        evs = crossing_history(q)
+        if evs is None:
+            raise RuntimeError('crossing history %r is not applicable' % (q,))
+        add('step', INIT_X, evs, 'crossing')
     # 1. exhaustive over the small alphabet (prefixes are covered by the checkpoints of step mode)
     alpha = SMALL[:6] if quick else SMALL[:8]
     depth = 2 if quick else 3
@@ -279,8 +361,10 @@ def run_binary(ctx, binary, test, inp, outp, timeout=3000, extra_env=None, worke
 def run_histories(ctx, binary, jobs, name):
     inp = os.path.join(ctx.tmp, name + '_in.json')
     outp = os.path.join(ctx.tmp, name + '_out.jsonl')
+    # longest first: the harness runs the histories on a bounded number of goroutines in the order given
+    sched = sorted(jobs, key=lambda j: -(len(j['events']) * (3 if j['mode'] == 'step' else 1)))
     json.dump([{k: j[k] for k in ('id', 'mode', 'init', 'events') if k in j} | ({'noanchor': True} if j.get('noanchor') else {})
-               for j in jobs], open(inp, 'w'))
+               for j in sched], open(inp, 'w'))
     rc, log = run_binary(ctx, binary, 'TestVerifC15Replay', inp, outp)
     if rc != 0 or not os.path.exists(outp):
         raise RuntimeError('C15 harness run failed (rc=%d):\n%s' % (rc, log[-4000:]))
@@ -432,22 +516,33 @@ def evaluate(ctx, binary, cases):
     div = [diverged(c) for c in cases]
     # ---- pass 1: keys (cases are evaluated in chunks: one huge list literal overflows Coq's stack)
     CH = int(os.environ.get('VERIF_CHUNK', '200'))
-    v = list(hdr)
-    v.append('Definition TB := %s.' % ctables(ids, parses, {}, {}, {}, empty_rules))
     nch = (len(cases) + CH - 1) // CH
-    for ci in range(nch):
-        sl = slice(ci * CH, (ci + 1) * CH)
-        v.append('Definition cases%d : list (bool * c15_case) := %s.' % (
-            ci, clist('(%s, %s)' % (cbool(d), cd) for d, cd in zip(div[sl], cdefs[sl]))))
-        v.append('Definition K1_%d := Eval vm_compute in flat_map (fun p => keys_of_case TB (fst p) (snd p)) cases%d.' % (ci, ci))
-        v.append('Print K1_%d.' % ci)
-    rc, out = vlib.coq_eval(ctx, 'Keys_C15', '\n'.join(v), timeout=1800)
-    if rc != 0:
-        raise RuntimeError('C15 key discovery failed:\n' + out[-3000:])
-    tick(ctx, 'coq pass 1 (oracle keys)')
+    # the key discovery is independent per case: sharded over parallel coqc processes (diverged cases, which run the
+    # model under 21 behaviours, are spread evenly)
+    from concurrent.futures import ThreadPoolExecutor
+    NSH = max(1, min(6, len(cases) // 12))
+    order = sorted(range(len(cases)), key=lambda i: (not div[i], i))
+    tb1 = 'Definition TB := %s.' % ctables(ids, parses, {}, {}, {}, empty_rules)
+
+    def keys_shard(k):
+        idx = order[k::NSH]
+        v = list(hdr) + [tb1]
+        v.append('Definition cases : list (bool * c15_case) := %s.' % clist('(%s, %s)' % (cbool(div[i]), cdefs[i]) for i in idx))
+        v.append('Definition K1 := Eval vm_compute in flat_map (fun p => keys_of_case TB (fst p) (snd p)) cases.')
+        v.append('Print K1.')
+        rc, out = vlib.coq_eval(ctx, 'Keys_C15_%d' % k, '\n'.join(v), timeout=1800)
+        if rc != 0:
+            raise RuntimeError('C15 key discovery failed:\n' + out[-3000:])
+        ks = coq_list_of_N(out, 'K1')
+        if ks is None:
+            raise RuntimeError('C15 key discovery: no result in\n' + out[-2000:])
+        return ks
+
     markers = set()
-    for ci in range(nch):
-        markers.update(coq_list_of_N(out, 'K1_%d' % ci) or [])
+    with ThreadPoolExecutor(max_workers=NSH) as ex:
+        for ks in ex.map(keys_shard, range(NSH)):
+            markers.update(ks)
+    tick(ctx, 'coq pass 1 (oracle keys, %d shards)' % NSH)
     markers = sorted(markers)
     fkeys, akeys = set(), {}
     for p in markers:
@@ -530,8 +625,30 @@ def evaluate(ctx, binary, cases):
     didx = [i for i, d in enumerate(div) if d]
     if sorted(r4) != didx:
         raise RuntimeError('python and Coq disagree on which cases diverge: %r vs %r' % (r4[:10], didx[:10]))
+    agg_codes = sorted({x for r in rules for x in r['agg']})
     return {'model_mismatch': set(r1), 'fresh_mismatch': set(r2), 'attr': dict(zip(didx, r3)), 'div': didx,
-            'n_fkeys': len(fd), 'n_akeys': len(ar), 'hyp_viol': hyp_viol, 'n_diags': len(ids.diag)}
+            'n_fkeys': len(fd), 'n_akeys': len(ar), 'hyp_viol': hyp_viol, 'n_diags': len(ids.diag), 'agg_codes': agg_codes}
+
+
+def race_confined(c, agg_codes):
+    """necessary condition for attributing a burst divergence to the modelled delete/rename race: the file job that
+    straddles the delete re-stores AGGREGATES of the deleted URI and may publish for it; the single-file
+    (non-aggregate) violations of every file that exists at the end are re-computed by that file's own last job and
+    must be the reference's"""
+    w = World(c['init'])
+    if c.get('noanchor'):
+        w.cur.pop(ANCHOR, None)
+    for e in c['events']:
+        if not w.applicable(e):
+            return False
+        w.apply(e)
+    agg = set(agg_codes)
+    for name in w.cur:
+        p = sorted(s for s in (c['published'] or {}).get(name, []) if s.split('|', 1)[0] not in agg)
+        f = sorted(s for s in (c['fresh'] or {}).get(name, []) if s.split('|', 1)[0] not in agg)
+        if p != f:
+            return False
+    return True
 
 
 def describe(c):
@@ -604,6 +721,8 @@ def run(ctx):
     tick(ctx, 'start (coq built)')
     binary = build_test_binary(ctx)
     tick(ctx, 'test binary built')
+    # the cache as shared state: cache-level histories against Model/LspCache.v, beside the server histories
+    cache = CacheCheck(ctx, race=False).start()
     if ctx.replay:
         rp = json.load(open(ctx.replay))
         jobs = [dict(rp['case'], id=0, tag='replay')] if 'case' in rp else []
@@ -619,6 +738,8 @@ def run(ctx):
 
     tick(ctx, '%d cases evaluated' % len(cases))
     # ---- verdicts -----------------------------------------------------------------------------
+    cache_ev = cache.finish() or {}
+    tick(ctx, 'cache-level check joined')
     n_viol = 0
     for r, j in zip(runs, jobs):
         if r.get('error'):
@@ -631,17 +752,23 @@ def run(ctx):
     for i in ev['div']:
         c = cases[i]
         mask = ev['attr'].get(i, 64)
-        explained = i not in ev['model_mismatch'] and (mask & 64) == 0 and (mask & 31) != 0
+        # exact attribution: the observation equals the prediction of the model of the current code (not in
+        # model_mismatch), that prediction is reproduced by the model in which exactly the named defects are present
+        # (bit 128 clear), and it is not the reference (some named defect: mask & 31); the fully repaired model converges
+        explained = i not in ev['model_mismatch'] and (mask & (64 | 128)) == 0 and (mask & 31) != 0
         if explained:
             for bit, (key, what) in DEFECTS.items():
                 if mask & bit:
                     known_seen.setdefault(bit, []).append(i)
         elif (c['mode'] == 'burst' and (mask & 32) and (mask & 64) == 0 and all_parse(c['events'])
-              and any(e['op'] in ('delete', 'rename') for e in c['events'])):
+              and any(e['op'] in ('delete', 'rename') for e in c['events']) and race_confined(c, ev.get('agg_codes') or [])):
             # Every job-atomic schedule of this parse-failure-free history converges (theorem
             # converges_job_atomic_partial; both extreme schedules checked on the model), so the observed
             # interleaving was not job-atomic, and the history contains the delete/rename that the modelled race
-            # needs.  Not reproduced by the sampled fine-grained schedule family: same defect class.
+            # needs.  Not reproduced by the sampled fine-grained schedule family: same defect class -- but only if the
+            # divergence is of the kind that race can produce (race_confined): stale AGGREGATE violations, or
+            # diagnostics of a URI that no longer exists.  Anything else (e.g. single-file violations of a previous
+            # version of an existing file, as a lost cache update leaves behind) is a VIOLATION.
             known_seen.setdefault(16, []).append(i)
             race_unreproduced += 1
         else:
@@ -708,6 +835,13 @@ def run(ctx):
         'oracle_hypothesis_violations': len(ev['hyp_viol']),
         'oracle_file_lints': ev['n_fkeys'], 'oracle_aggregate_reports': ev['n_akeys'], 'distinct_diagnostics': ev['n_diags'],
         'quiescence_by_stability_fallback': stable, 'timing_s': getattr(ctx, 'timing', []),
+        'crossing_state_event_pairs_covered': len(crossing_pairs(crossing_sequences(ctx.quick()))) if not ctx.replay else 0,
+        'crossing_pairs_rule': 'ordered pairs (state-changing event of the subject file: other contents / unparseable / empty / parses again, '
+                               'structural event: didOpen of a new importer / didChange of another file / didCreateFiles / didRenameFiles / '
+                               'didDeleteFiles / config change) in both orders, as consecutive events of one-at-a-time histories over a '
+                               'workspace of three files with imports',
+        'attribution_inexact': len([i for i in ev['div'] if ev['attr'].get(i, 0) & 128]),
+        **cache_ev,
         'race_detector': False,
         'samples': [describe(c) for c in cases[:2]] + [describe(cases[i]) for i in ev['div'][:3]],
         'exhaustive': False,
@@ -719,4 +853,540 @@ def run(ctx):
         'the fsnotify layer of the config watcher is replaced by the harness (events injected into configWatcher.Reload)',
         'burst mode samples real interleavings; only job-atomic schedules are covered by the theorems',
         'not covered: ignored files / ignore patterns, config drop, inline ignore directives, files outside the workspace root, templating of empty files',
+        'the cache is modelled at the granularity of one access of one concurrent map (Model/LspCache.v); concurrent cache histories are sampled '
+        '(a few hundred rounds per scenario in the quick tier), the shape obligation cache_shape_match ties the access sequences to the source',
     ])
+
+
+# ====================================================================================================
+# The cache as shared state (C15, C17): cache-level histories (harness/overlay/c15_cache_test.go, package
+# internal/lsp/cache) compared with Model/LspCache.v.  Used by c15.run and c17.run.
+# ====================================================================================================
+CFIELDS = ['FContents', 'FIgnored', 'FModules', 'FAggs', 'FDirectives', 'FDiags', 'FParseErrs', 'FBuiltins', 'FKeywords',
+           'FLineCounts', 'FRefs']
+C_GETALL = {0: 'GetAllFiles', 1: 'GetAllIgnoredFiles', 2: 'GetAllModules', 4: 'GetIgnoreDirectives', 7: 'GetAllBuiltInPositions',
+            10: 'GetAllFileRefs'}
+C_GET = {0: 'GetFileContents', 1: 'GetIgnoredFileContents', 2: 'GetModule', 5: 'GetFileDiagnostics', 6: 'GetParseErrors',
+         7: 'GetBuiltinPositions', 8: 'GetKeywordLocations', 9: 'GetSuccessfulParseLineCount'}
+C_SET = {0: 'SetFileContents', 1: 'SetIgnoredFileContents', 2: 'SetModule', 5: 'SetFileDiagnostics', 6: 'SetParseErrors',
+         7: 'SetBuiltinPositions', 8: 'SetKeywordLocations', 9: 'SetSuccessfulParseLineCount', 10: 'SetFileRefs'}
+C_OTHER = {'GetFileRefs': 'GetFileRefs', 'ClearIgnored': 'ClearIgnoredFileContents', 'GetContentAndModule': 'GetContentAndModule',
+           'Rename': 'Rename', 'SetFileAggregates': 'SetFileAggregates', 'SetAggregates': 'SetAggregates',
+           'GetFileAggregates': 'GetFileAggregates', 'SetFileIgnoreDirectives': 'SetFileIgnoreDirectives',
+           'SetIgnoreDirectives': 'SetIgnoreDirectives', 'SetDiagsForRules': 'SetFileDiagnosticsForRules',
+           'ClearDiags': 'ClearFileDiagnostics', 'Delete': 'Delete', 'UpdateFromDisk': 'UpdateCacheForURIFromDisk'}
+CACHE_POISON = 999999
+
+
+def cache_method(o):
+    if o['op'] == 'GetAll':
+        return C_GETALL[o.get('f', 0)]
+    if o['op'] == 'Get':
+        return C_GET[o.get('f', 0)]
+    if o['op'] == 'Set':
+        return C_SET[o.get('f', 0)]
+    return C_OTHER[o['op']]
+
+
+def cache_driven_methods():
+    return set(C_GETALL.values()) | set(C_GET.values()) | set(C_SET.values()) | (set(C_OTHER.values()) - {'UpdateCacheForURIFromDisk'})
+
+
+class CacheGen:
+    """random operations over every exported function of package cache (one PRNG)"""
+    def __init__(self, rng, nuri=4):
+        self.rng, self.nuri, self.aid = rng, nuri, 0
+
+    def uri(self):
+        return self.rng.below(self.nuri)
+
+    def atom(self):
+        return {'k': 'a', 'a': self.rng.below(7)}
+
+    def diags(self, codes=None, maxn=4):
+        out = []
+        for _ in range(self.rng.below(maxn + 1)):
+            c = self.rng.choice(codes) if codes else 1 + self.rng.below(4)
+            out.append([c, 1 + self.rng.below(9), 1 + (self.rng.below(3) if self.rng.below(4) == 0 else 0)])
+        return out
+
+    def aggs(self, key):
+        out = []
+        for _ in range(self.rng.below(4)):
+            self.aid += 1
+            out.append([self.uri(), key, self.aid])
+        return out
+
+    def aggdata(self):
+        return [{'key': k, 'aggs': self.aggs(k)} for k in (1, 2, 3) if self.rng.below(3) != 0]
+
+    def dirs(self):
+        return [[u, self.rng.below(5)] for u in range(self.nuri) if self.rng.below(2) == 0]
+
+    def val(self, f):
+        if f in (5, 6):
+            return {'k': 'd', 'd': self.diags()}
+        return self.atom()
+
+    def op(self):
+        r = self.rng.below(100)
+        u = self.uri()
+        if r < 8:
+            return {'op': 'GetAll', 'f': self.rng.choice(sorted(C_GETALL))}
+        if r < 26:
+            # diagnostics are read back often: what a getter handed out must survive later updates
+            f = 5 if self.rng.below(3) == 0 else self.rng.choice(sorted(C_GET))
+            return {'op': 'Get', 'f': f, 'u': u}
+        if r < 46:
+            f = 5 if self.rng.below(4) == 0 else self.rng.choice(sorted(C_SET))
+            return {'op': 'Set', 'f': f, 'u': u, 'val': self.val(f)}
+        if r < 49:
+            return {'op': 'GetFileRefs', 'u': u}
+        if r < 51:
+            return {'op': 'ClearIgnored', 'u': u}
+        if r < 55:
+            return {'op': 'GetContentAndModule', 'u': u}
+        if r < 59:
+            return {'op': 'Rename', 'u': u, 'v2': self.uri()}
+        if r < 64:
+            return {'op': 'SetFileAggregates', 'u': u, 'data': self.aggdata()}
+        if r < 67:
+            return {'op': 'SetAggregates', 'data': self.aggdata()}
+        if r < 72:
+            return {'op': 'GetFileAggregates', 'us': [v for v in range(self.nuri) if self.rng.below(3) == 0]}
+        if r < 75:
+            return {'op': 'SetFileIgnoreDirectives', 'u': u, 'dirs': self.dirs()}
+        if r < 77:
+            return {'op': 'SetIgnoreDirectives', 'dirs': self.dirs()}
+        if r < 91:
+            rules = [c for c in (1, 2, 3, 4) if self.rng.below(2) == 0]
+            # mostly diagnostics of the evaluated rules (as the linter reports), sometimes of others
+            return {'op': 'SetDiagsForRules', 'u': u, 'rules': rules,
+                    'diags': self.diags(rules if rules and self.rng.below(5) != 0 else None)}
+        if r < 92:
+            return {'op': 'ClearDiags'}
+        if r < 96:
+            return {'op': 'Delete', 'u': u}
+        return {'op': 'UpdateFromDisk', 'u': u, 'disk': (None if self.rng.below(5) == 0 else self.rng.below(7))}
+
+
+def gen_cache_seq(rng, n):
+    jobs = []
+    for i in range(n):
+        g = CacheGen(rng, nuri=2 + rng.below(3))
+        jobs.append({'id': i, 'ops': [g.op() for _ in range(8 + rng.below(14))]})
+    # every function at least once, whatever the seed
+    g = CacheGen(rng)
+    ops = [{'op': 'GetAll', 'f': f} for f in sorted(C_GETALL)] + [{'op': 'Set', 'f': f, 'u': 1, 'val': g.val(f)} for f in sorted(C_SET)] \
+        + [{'op': 'Get', 'f': f, 'u': 1} for f in sorted(C_GET)] \
+        + [{'op': 'GetFileRefs', 'u': 1}, {'op': 'GetContentAndModule', 'u': 1}, {'op': 'SetFileAggregates', 'u': 1, 'data': g.aggdata()},
+           {'op': 'GetFileAggregates', 'us': []}, {'op': 'SetFileIgnoreDirectives', 'u': 1, 'dirs': [[1, 3]]},
+           {'op': 'SetDiagsForRules', 'u': 1, 'rules': [1], 'diags': [[1, 2, 1]]}, {'op': 'Rename', 'u': 1, 'v2': 2},
+           {'op': 'UpdateFromDisk', 'u': 2, 'disk': 4}, {'op': 'ClearIgnored', 'u': 2}, {'op': 'SetAggregates', 'data': g.aggdata()},
+           {'op': 'SetIgnoreDirectives', 'dirs': [[0, 1], [2, 2]]}, {'op': 'ClearDiags'}, {'op': 'Delete', 'u': 2}]
+    jobs.append({'id': n, 'ops': ops})
+    return jobs
+
+
+def gen_cache_conc(rng, quick):
+    """concurrent scenarios: 2-4 goroutines on the same URI.  `atomic`: every operation is one access of one map, so the
+    outcome must also equal a sequential order of the operations on the implementation itself."""
+    jobs = []
+    rounds = 300 if quick else 3000
+
+    def add(setup, threads, atomic, tag, rr=None):
+        jobs.append({'id': len(jobs), 'setup': setup, 'threads': threads, 'rounds': rr or rounds, 'atomic': atomic, 'tag': tag})
+
+    def fr(u, rules, diags):
+        return {'op': 'SetDiagsForRules', 'u': u, 'rules': rules, 'diags': diags}
+
+    def getd(u):
+        return {'op': 'Get', 'f': 5, 'u': u}
+
+    # A. partial updates of the same file for DISJOINT rule sets (file-lint worker: non-aggregate rules; workspace-lint
+    #    worker: aggregate rules), 2-4 writers, a few / many diagnostics each; the result is unique up to order
+    for size in (1, 3, 40, 150):
+        for nt in (2, 3, 4):
+            if size > 3 and nt == 4:
+                continue
+            base = [[c, 10 + c, max(1, size // 2)] for c in range(1, nt + 2)]       # codes 1..nt are rewritten, nt+1 is kept
+            ths = [[fr(1, [t + 1], [[t + 1, 20 + t, size]])] for t in range(nt)]
+            add([{'op': 'Set', 'f': 5, 'u': 1, 'val': {'k': 'd', 'd': base}}], ths, True, 'disjoint-rules')
+    # two updates in a row per writer (as a burst of edits gives)
+    add([{'op': 'Set', 'f': 5, 'u': 1, 'val': {'k': 'd', 'd': [[1, 11, 2], [2, 12, 2], [3, 13, 1]]}}],
+        [[fr(1, [1], [[1, 21, 2]]), fr(1, [1], [[1, 22, 1]])], [fr(1, [2], [[2, 31, 2]]), fr(1, [2], [])]], True, 'disjoint-rules-twice')
+    # B. writers and a reader that uses what it was handed out while the writers go on (sendFileDiagnostics)
+    for size in (2, 60):
+        add([{'op': 'Set', 'f': 5, 'u': 1, 'val': {'k': 'd', 'd': [[1, 11, size], [2, 12, size], [3, 13, size]]}}],
+            [[fr(1, [1], [[1, 21, size]])], [fr(1, [2], [[2, 22, 1]])], [getd(1), getd(1)]], True, 'writers-and-reader')
+    add([{'op': 'Set', 'f': 5, 'u': 1, 'val': {'k': 'd', 'd': [[1, 11, 3], [2, 12, 3], [3, 13, 3]]}}],
+        [[fr(1, [1, 2], [[1, 21, 1]]), fr(1, [1], [])], [getd(1), getd(1), getd(1)]], True, 'writer-and-reader')
+    # C. overlapping rule sets and a full replacement: not commuting, one of the sequential orders
+    add([{'op': 'Set', 'f': 5, 'u': 1, 'val': {'k': 'd', 'd': [[1, 11, 1], [2, 12, 1], [3, 13, 1]]}}],
+        [[fr(1, [1, 2], [[1, 21, 1]])], [fr(1, [2, 3], [[3, 22, 2]])]], True, 'overlapping-rules')
+    add([{'op': 'Set', 'f': 5, 'u': 1, 'val': {'k': 'd', 'd': [[1, 11, 1], [2, 12, 1]]}}],
+        [[fr(1, [1], [[1, 21, 1]])], [{'op': 'Set', 'f': 5, 'u': 1, 'val': {'k': 'd', 'd': [[2, 30, 2]]}}], [getd(1)]], True, 'update-vs-replace')
+    # D. different maps of the same URI, and the same map of different URIs
+    add([], [[{'op': 'Set', 'f': 0, 'u': 1, 'val': {'k': 'a', 'a': 3}}, {'op': 'Get', 'f': 2, 'u': 1}],
+             [{'op': 'Set', 'f': 2, 'u': 1, 'val': {'k': 'a', 'a': 4}}, {'op': 'Get', 'f': 0, 'u': 1}],
+             [fr(1, [1], [[1, 5, 1]]), {'op': 'Set', 'f': 6, 'u': 1, 'val': {'k': 'd', 'd': [[9, 1, 1]]}}]], True, 'different-maps')
+    add([{'op': 'Set', 'f': 5, 'u': 1, 'val': {'k': 'd', 'd': [[1, 11, 1]]}}, {'op': 'Set', 'f': 5, 'u': 2, 'val': {'k': 'd', 'd': [[1, 12, 1]]}}],
+        [[fr(1, [1], [[1, 21, 1]]), getd(2)], [fr(2, [1], [[1, 22, 1]]), getd(1)]], True, 'different-uris')
+    add([{'op': 'Set', 'f': 5, 'u': 1, 'val': {'k': 'd', 'd': [[1, 11, 1], [2, 12, 1]]}}],
+        [[fr(1, [1], [[1, 21, 1]])], [{'op': 'ClearDiags'}], [fr(1, [2], [[2, 22, 1]])]], True, 'update-vs-clear')
+    # E. operations that are compositions of atomic accesses (Delete, Rename, SetAggregates, SetIgnoreDirectives,
+    #    GetContentAndModule, UpdateCacheForURIFromDisk): explained by an interleaving of their modelled steps
+    few = max(60, rounds // 4)
+    add([{'op': 'Set', 'f': 5, 'u': 1, 'val': {'k': 'd', 'd': [[1, 11, 1], [2, 12, 1]]}}, {'op': 'Set', 'f': 0, 'u': 1, 'val': {'k': 'a', 'a': 2}}],
+        [[{'op': 'Delete', 'u': 1}], [fr(1, [1], [[1, 21, 1]])], [{'op': 'Set', 'f': 0, 'u': 1, 'val': {'k': 'a', 'a': 5}}]], False, 'delete-vs-updates', few)
+    add([{'op': 'Set', 'f': 0, 'u': 1, 'val': {'k': 'a', 'a': 2}}, {'op': 'Set', 'f': 2, 'u': 1, 'val': {'k': 'a', 'a': 3}}],
+        [[{'op': 'GetContentAndModule', 'u': 1}], [{'op': 'Delete', 'u': 1}]], False, 'content-and-module-vs-delete', few)
+    add([{'op': 'SetFileAggregates', 'u': 1, 'data': [{'key': 1, 'aggs': [[1, 1, 1]]}]}],
+        [[{'op': 'SetAggregates', 'data': [{'key': 1, 'aggs': [[1, 1, 2], [2, 1, 3]]}]}],
+         [{'op': 'SetFileAggregates', 'u': 1, 'data': [{'key': 1, 'aggs': [[1, 1, 4]]}]}], [{'op': 'GetFileAggregates', 'us': []}]],
+        False, 'set-aggregates-vs-file-aggregates', few)
+    add([{'op': 'Set', 'f': 0, 'u': 1, 'val': {'k': 'a', 'a': 2}}],
+        [[{'op': 'UpdateFromDisk', 'u': 1, 'disk': 3}], [{'op': 'Set', 'f': 0, 'u': 1, 'val': {'k': 'a', 'a': 3}}], [{'op': 'Get', 'f': 0, 'u': 1}]],
+        False, 'update-from-disk-vs-set', few)
+    add([{'op': 'Set', 'f': 0, 'u': 1, 'val': {'k': 'a', 'a': 2}}, {'op': 'Set', 'f': 5, 'u': 1, 'val': {'k': 'd', 'd': [[1, 11, 1]]}}],
+        [[{'op': 'Rename', 'u': 1, 'v2': 2}], [fr(1, [2], [[2, 21, 1]])]], False, 'rename-vs-update', few)
+    add([{'op': 'SetFileIgnoreDirectives', 'u': 1, 'dirs': [[1, 1]]}],
+        [[{'op': 'SetIgnoreDirectives', 'dirs': [[1, 2], [2, 3]]}], [{'op': 'SetFileIgnoreDirectives', 'u': 1, 'dirs': [[1, 4]]}],
+         [{'op': 'GetAll', 'f': 4}]], False, 'ignore-directives', few)
+    # F. drawn: 2-3 goroutines with 1-2 single-access operations each on the diagnostics of one URI
+    for _ in range(4 if quick else 24):
+        g = CacheGen(rng)
+        nt = 2 + rng.below(2)
+        ths = []
+        for t in range(nt):
+            ops = []
+            for _ in range(1 + rng.below(2)):
+                k = rng.below(10)
+                if k < 6:
+                    rules = [c for c in (1, 2, 3) if rng.below(2) == 0]
+                    ops.append(fr(1, rules, g.diags(rules or None, 3)))
+                elif k < 8:
+                    ops.append(getd(1))
+                elif k < 9:
+                    ops.append({'op': 'Set', 'f': 5, 'u': 1, 'val': {'k': 'd', 'd': g.diags(None, 3)}})
+                else:
+                    ops.append({'op': 'Get', 'f': 6, 'u': 1})
+            ths.append(ops)
+        add([{'op': 'Set', 'f': 5, 'u': 1, 'val': {'k': 'd', 'd': [[1, 11, 2], [2, 12, 1], [3, 13, 1]]}}], ths, True, 'drawn')
+    return jobs
+
+
+# ---- Coq printers
+def cN_(n):
+    return str(n) if isinstance(n, int) and n >= 0 else str(CACHE_POISON)
+
+
+def cval(v):
+    if v is None:
+        return 'VAtom 0'
+    k = v.get('k')
+    if k == 'd':
+        return 'VDiags (rl %s)' % clist('((%s, %s), %d%%nat)' % (cN_(e[0]), cN_(e[1]), e[2]) for e in (v.get('d') or []))
+    if k == 'g':
+        return 'VAggs %s' % caggs(v.get('g') or [])
+    return 'VAtom %s' % cN_(v.get('a', 0) or 0)
+
+
+def caggs(l):
+    return clist('(%s, %s, %s)' % (cN_(e[0]), cN_(e[1]), cN_(e[2])) for e in l)
+
+
+def caggdata(d):
+    return clist('(%d, %s)' % (e['key'], caggs(e.get('aggs') or [])) for e in (d or []))
+
+
+def cop_(o):
+    op, u, f = o['op'], o.get('u', 0), CFIELDS[o.get('f', 0)]
+    if op == 'GetAll':
+        return 'OGetAll %s' % f
+    if op == 'Get':
+        return 'OGet %s %d' % (f, u)
+    if op == 'Set':
+        return 'OSet %s %d (%s)' % (f, u, cval(o.get('val')))
+    if op == 'GetFileRefs':
+        return 'OGetFileRefs %d' % u
+    if op == 'ClearIgnored':
+        return 'OClearIgnored %d' % u
+    if op == 'GetContentAndModule':
+        return 'OGetContentAndModule %d' % u
+    if op == 'Rename':
+        return 'ORename %d %d' % (u, o.get('v2', 0))
+    if op == 'SetFileAggregates':
+        return 'OSetFileAggregates %d %s' % (u, caggdata(o.get('data')))
+    if op == 'SetAggregates':
+        return 'OSetAggregates %s' % caggdata(o.get('data'))
+    if op == 'GetFileAggregates':
+        return 'OGetFileAggregates %s' % clist(str(x) for x in (o.get('us') or []))
+    if op == 'SetFileIgnoreDirectives':
+        return 'OSetFileIgnoreDirectives %d %s' % (u, clist('(%d, %d)' % (a, b) for a, b in (o.get('dirs') or [])))
+    if op == 'SetIgnoreDirectives':
+        return 'OSetIgnoreDirectives %s' % clist('(%d, %d)' % (a, b) for a, b in (o.get('dirs') or []))
+    if op == 'SetDiagsForRules':
+        return 'OSetDiagsForRules %d %s (rl %s)' % (u, clist(str(r) for r in (o.get('rules') or [])),
+                                                    clist('((%d, %d), %d%%nat)' % (e[0], e[1], e[2]) for e in (o.get('diags') or [])))
+    if op == 'ClearDiags':
+        return 'OClearDiags'
+    if op == 'Delete':
+        return 'ODelete %d' % u
+    if op == 'UpdateFromDisk':
+        return 'OUpdateFromDisk %d %s' % (u, 'None' if o.get('disk') is None else '(Some %d)' % o['disk'])
+    raise RuntimeError('unknown cache operation %r' % (o,))
+
+
+def centries(m):
+    return clist('(%s, %s)' % (cN_(e['u']), cval(e['v'])) for e in (m or []))
+
+
+def cres_(r):
+    t = r['t']
+    if t == 'unit':
+        return 'RUnit'
+    if t == 'opt':
+        return 'ROpt (Some (%s))' % cval(r.get('v')) if r.get('ok') else 'ROpt None'
+    if t == 'all':
+        return 'RAll %s' % centries(r.get('m'))
+    if t == 'pair':
+        return 'RPair (Some (%s, %s))' % (cval(r.get('c')), cval(r.get('mod'))) if r.get('ok') else 'RPair None'
+    if t == 'aggmap':
+        return 'RAggMap %s' % clist('(%s, %s)' % (cN_(e['key']), caggs(e.get('aggs') or [])) for e in (r.get('aggmap') or []))
+    if t == 'disk':
+        return 'RDisk %s %s %s' % (cbool(r.get('changed', False)), cN_(r.get('content', 0)), cbool(r.get('failed', False)))
+    raise RuntimeError('unknown cache result %r' % (r,))
+
+
+def cdump(final):
+    return clist(centries(m) for m in final)
+
+
+def cache_order_variants(threads, cap=6):
+    """the thread lists with the entries of map-typed arguments (whose iteration order Go leaves open) permuted"""
+    import itertools
+    sites = [(ti, oi, 'dirs' if o['op'] == 'SetIgnoreDirectives' else 'data')
+             for ti, t in enumerate(threads) for oi, o in enumerate(t)
+             if (o['op'] == 'SetIgnoreDirectives' and len(o.get('dirs') or []) > 1) or (o['op'] == 'SetAggregates' and len(o.get('data') or []) > 1)]
+    out = [threads]
+    for ti, oi, key in sites:
+        new = []
+        for th in out:
+            for perm in itertools.permutations(th[ti][oi][key]):
+                t2 = [list(t) for t in th]
+                t2[ti][oi] = dict(th[ti][oi], **{key: list(perm)})
+                if t2 not in new:
+                    new.append(t2)
+        out = new[:cap]
+    return out
+
+
+def build_cache_binary(ctx, race=False):
+    ov = {'Replace': {os.path.join(vlib.REPO, 'internal/lsp/cache/zz_verif_c15_cache_test.go'):
+                      os.path.join(vlib.HARNESS, 'overlay', 'c15_cache_test.go')}}
+    ovp = os.path.join(ctx.tmp, 'overlay_cache.json')
+    json.dump(ov, open(ovp, 'w'))
+    out = os.path.join(ctx.tmp, 'cache_race.test' if race else 'cache.test')
+    cmd = [vlib.GO, 'test', '-c', '-overlay', ovp, '-vet=off'] + (['-race'] if race else []) + ['-o', out, './internal/lsp/cache']
+    rc, log = vlib.run(cmd, cwd=vlib.REPO, env=vlib.goenv(), timeout=1500)
+    if rc != 0:
+        raise vlib.HarnessBuildError(log)
+    return out
+
+
+def cache_describe(o):
+    s = o['op']
+    if o['op'] in ('Get', 'Set', 'GetAll'):
+        s = cache_method(o)
+    return '%s(%s)' % (s, ','.join(str(o[k]) for k in ('u', 'v2', 'rules', 'diags', 'disk') if k in o))
+
+
+class CacheCheck:
+    """the cache-level check in two phases, so that the first (build, run, Coq) can run beside the server histories:
+    start() ... finish() -> evidence (violations are registered in finish, on the caller's thread)"""
+    def __init__(self, ctx, race=False):
+        import threading
+        self.ctx, self.race, self.raw, self.err = ctx, race, None, None
+        self.thread = threading.Thread(target=self._work, daemon=True)
+
+    def _work(self):
+        try:
+            self.raw = cache_run(self.ctx, self.race)
+        except BaseException as e:     # re-raised by finish()
+            self.err = e
+
+    def start(self):
+        self.thread.start()
+        return self
+
+    def finish(self):
+        self.thread.join()
+        if self.err is not None:
+            raise self.err
+        return cache_verdicts(self.ctx, self.raw) if self.raw is not None else None
+
+
+def cache_check(ctx, race=False):
+    raw = cache_run(ctx, race)
+    return cache_verdicts(ctx, raw) if raw is not None else None
+
+
+def cache_run(ctx, race=False):
+    """runs the cache-level histories and evaluates them against Model/LspCache.v; returns the raw observations"""
+    import time
+    t_start = time.time()
+    rp = None
+    if ctx.replay:
+        rp = json.load(open(ctx.replay)).get('cache_case')
+        if rp is None:
+            return None
+    binary = build_cache_binary(ctx, race=race)
+    rng = vlib.SplitMix(ctx.seed ^ 0xC15CAC4E)
+    if rp is not None:
+        seq = [dict(rp['seq'], id=0)] if 'seq' in rp else []
+        conc = [dict(rp['conc'], id=0, rounds=max(2000, rp['conc'].get('rounds', 0) * 5))] if 'conc' in rp else []
+    else:
+        seq = gen_cache_seq(rng, 70 if ctx.quick() else 600)
+        conc = gen_cache_conc(rng, ctx.quick())
+    inp, outp = os.path.join(ctx.tmp, 'cache_in.json'), os.path.join(ctx.tmp, 'cache_out.json')
+    json.dump({'seq': [{'id': j['id'], 'ops': j['ops']} for j in seq],
+               'conc': [{k: j[k] for k in ('id', 'setup', 'threads', 'rounds', 'atomic')} for j in conc]}, open(inp, 'w'))
+    work = os.path.join(ctx.tmp, 'work')
+    os.makedirs(work, exist_ok=True)
+    env = dict(os.environ, VERIF_IN=inp, VERIF_OUT=outp, VERIF_WORK=work, VERIF_SEED=str(ctx.seed))
+    if race:
+        env.update(VERIF_RACE='1', GORACE='halt_on_error=0')
+    rc, log = vlib.run([binary, '-test.run', '^TestVerifC15Cache$', '-test.timeout', '3000s', '-test.count', '1'],
+                       cwd=ctx.tmp, env=env, timeout=3100)
+    races = log.count('WARNING: DATA RACE')
+    if not os.path.exists(outp) or (rc != 0 and not races):
+        raise RuntimeError('cache harness run failed (rc=%d):\n%s' % (rc, log[-4000:]))
+    o = json.load(open(outp))
+    o['seq'], o['conc'] = o.get('seq') or [], o.get('conc') or []
+    for r in o['conc']:
+        r['outcomes'] = r.get('outcomes') or []
+    t_run = time.time()
+    for j, r in zip(seq, o['seq']):
+        if r.get('error'):
+            raise RuntimeError('cache harness: history %d: %s' % (j['id'], r['error']))
+    for j, r in zip(conc, o['conc']):
+        if r.get('error'):
+            raise RuntimeError('cache harness: scenario %d: %s' % (j['id'], r['error']))
+    flat = [(j, oc) for j, r in zip(conc, o['conc']) for oc in r['outcomes']]
+    bad_seq, bad_conc = cache_coq(ctx, seq, conc, o, flat)
+    return {'seq': seq, 'conc': conc, 'o': o, 'flat': flat, 'bad_seq': bad_seq, 'bad_conc': bad_conc, 'log': log, 'race': race,
+            'timing': {'build+run': round(t_run - t_start, 1), 'coq': round(time.time() - t_run, 1)}}
+
+
+def cache_coq(ctx, seq, conc, o, flat):
+    """correspondence with Model/LspCache.v: indices of sequential histories / concurrent outcomes the model does not explain"""
+    v = ['From Regal Require Import Check.C15Check.', 'Open Scope N_scope.']
+    CHS = 25
+    nch = (len(seq) + CHS - 1) // CHS
+    for ci in range(nch):
+        cs = []
+        for j, r in list(zip(seq, o['seq']))[ci * CHS:(ci + 1) * CHS]:
+            cs.append('{| q_ops := %s; q_final := %s |}' % (
+                clist('(%s, %s)' % (cop_(op), cres_(res)) for op, res in zip(j['ops'], r['results'])), cdump(r['final'])))
+        v.append('Definition qs%d : list cache_seq_case := %s.' % (ci, clist(cs)))
+        v.append('Definition Q%d := Eval vm_compute in failing agrees_cache_seq %d qs%d. Print Q%d.' % (ci, ci * CHS, ci, ci))
+    cs = []
+    for j, oc in flat:
+        # Go ranges over the maps handed to SetIgnoreDirectives / SetAggregates in an arbitrary order: the model is tried
+        # with every order of their entries (one alternative per order)
+        alts = []
+        for threads in cache_order_variants(j['threads']):
+            alts.append('{| n_setup := %s; n_threads := %s; n_final := %s |}' % (
+                clist(cop_(x) for x in j['setup']),
+                clist(clist('(%s, %s)' % (cop_(op), cres_(res)) for op, res in zip(t, rs)) for t, rs in zip(threads, oc['results'])),
+                cdump(oc['final'])))
+        cs.append(clist(alts))
+    v.append('Definition ns : list (list cache_conc_case) := %s.' % clist(cs))
+    v.append('Definition NQ := Eval vm_compute in failing (existsb agrees_cache_conc) 0 ns. Print NQ.')
+    rc, out = vlib.coq_eval(ctx, 'Cases_C15_cache', '\n'.join(v), timeout=1800)
+    if rc != 0:
+        raise RuntimeError('cache case evaluation failed:\n' + out[-3000:])
+    bad_seq = []
+    for ci in range(nch):
+        bad_seq += vlib.parse_nat_list(out, 'Q%d' % ci) or []
+    return bad_seq, vlib.parse_nat_list(out, 'NQ') or []
+
+
+def cache_verdicts(ctx, raw):
+    """registers the violations of the cache-level check; returns its evidence"""
+    seq, conc, o, flat, log, race = raw['seq'], raw['conc'], raw['o'], raw['flat'], raw['log'], raw['race']
+    bad_seq, bad_conc = raw['bad_seq'], raw['bad_conc']
+    races = log.count('WARNING: DATA RACE')
+    ev = {'cache_sequential_histories': len(seq), 'cache_sequential_operations': sum(len(j['ops']) for j in seq),
+          'cache_concurrent_scenarios': len(conc), 'cache_concurrent_rounds': sum(j['rounds'] for j in conc), 'cache_race_detector': race}
+    n0 = len(ctx.violations)
+    # -- every exported function is driven
+    missing = sorted(set(o.get('methods') or []) - cache_driven_methods())
+    used = {}
+    for j in seq:
+        for op in j['ops']:
+            used[cache_method(op)] = used.get(cache_method(op), 0) + 1
+    ev['cache_operations_by_function'] = used
+    # -- value semantics (model-free, concrete input)
+    for j, r in zip(seq, o['seq']):
+        if r.get('mutated_at', -1) >= 0 and len(ctx.violations) - n0 < 2:
+            k = r['mutated_at']
+            vlib.violation(ctx, {'kind': 'cache-value-written-through',
+                                 'what': 'a slice / map that crossed the boundary of the cache earlier was changed by %s (operation %d): %s'
+                                         % (cache_describe(j['ops'][k]), k, '; '.join(r.get('mutated') or [])[:600]),
+                                 'cache_case': {'seq': {'ops': j['ops'][:k + 1]}}},
+                           signature={'kind': 'cache-value-written-through', 'key': cache_method(j['ops'][k])})
+    ev['cache_values_written_through'] = sum(1 for r in o['seq'] if r.get('mutated_at', -1) >= 0)
+    # -- linearizability on the implementation itself (single-access scenarios)
+    nonseq, n_out = [], 0
+    for j, r in zip(conc, o['conc']):
+        for oc in r['outcomes']:
+            n_out += 1
+            if oc.get('sequential') is False:
+                nonseq.append((j, oc))
+    for j, oc in nonseq[:2]:
+        vlib.violation(ctx, {'kind': 'cache-not-linearizable',
+                             'what': 'scenario %s: %d of %d rounds ended with results / a final state that no sequential order of the '
+                                     'operations gives (an update of one goroutine was lost or a value was seen half-written); '
+                                     'threads: %s; final diagnostics: %s'
+                                     % (j['tag'], oc['count'], j['rounds'], [[cache_describe(x) for x in t] for t in j['threads']],
+                                        json.dumps(oc['final'][5])[:400]),
+                             'cache_case': {'conc': {k: j[k] for k in ('setup', 'threads', 'rounds', 'atomic')}}, 'outcome': oc},
+                       signature={'kind': 'cache-not-linearizable', 'key': j['tag']})
+    ev['cache_distinct_outcomes'] = n_out
+    ev['cache_outcomes_not_sequential'] = len(nonseq)
+    ev['cache_outcomes_by_scenario'] = {'%d:%s' % (j['id'], j['tag']): len(r['outcomes']) for j, r in zip(conc, o['conc'])}
+    # -- race detector (thorough tier)
+    if races:
+        blk = log.split('WARNING: DATA RACE', 1)[1].split('==================')[0]
+        fn = re.findall(r'cache\.\(\*Cache\)\.(\w+)', blk)
+        vlib.violation(ctx, {'kind': 'data-race', 'what': 'race detector: cache operations of concurrent goroutines race (%s)' % ', '.join(sorted(set(fn))),
+                             'report': blk[:8000], 'n_reports': races}, signature={'kind': 'data-race', 'key': 'cache:' + '+'.join(sorted(set(fn)))})
+    ev['cache_race_reports'] = races
+    # -- correspondence with Model/LspCache.v
+    ev['cache_mismatch_model_sequential'] = len(bad_seq)
+    ev['cache_outcomes_not_explained_by_model_interleavings'] = len(bad_conc)
+    if bad_conc and len(ctx.violations) == n0:
+        j, oc = flat[bad_conc[0]]
+        vlib.violation(ctx, {'kind': 'cache-not-explained-by-atomic-steps',
+                             'what': 'scenario %s: results / final state of concurrent goroutines are not reachable by any interleaving of the '
+                                     'atomic map accesses of Model/LspCache.v (Check.C15Check.agrees_cache_conc); threads: %s'
+                                     % (j['tag'], [[cache_describe(x) for x in t] for t in j['threads']]),
+                             'cache_case': {'conc': {k: j[k] for k in ('setup', 'threads', 'rounds', 'atomic')}}, 'outcome': oc,
+                             'n_outcomes': len(bad_conc)},
+                       signature={'kind': 'cache-not-explained-by-atomic-steps', 'key': j['tag']})
+    if bad_seq and len(ctx.violations) == n0:
+        j = seq[bad_seq[0]]
+        vlib.violation(ctx, {'kind': 'correspondence', 'relation': 'Check.C15Check.agrees_cache_seq (Model/LspCache.v vs internal/lsp/cache)',
+                             'cache_case': {'seq': {'ops': j['ops']}}, 'observed': o['seq'][bad_seq[0]], 'n_mismatches': len(bad_seq)},
+                       no_input=True)
+    if missing and len(ctx.violations) == n0:
+        vlib.violation(ctx, {'kind': 'correspondence', 'relation': 'every exported method of cache.Cache is driven by the cache-level harness',
+                             'what': 'methods the harness does not know: %s' % missing}, no_input=True)
+    ev['cache_methods_not_driven'] = missing
+    ev['cache_timing_s'] = raw['timing']
+    ev['cache_samples'] = [[cache_describe(x) for x in seq[0]['ops'][:6]]] + \
+                          [{'threads': [[cache_describe(x) for x in t] for t in conc[0]['threads']], 'outcomes': len(o['conc'][0]['outcomes'])}] \
+        if seq and conc else []
+    return ev
